@@ -54,8 +54,15 @@ func exprStrD(v ssa.Value, d int) string {
 		}
 		return x.Op.String() + exprStrD(x.X, d+1)
 	case *ssa.FieldAddr:
+		// an embedded struct is not written in the source (its fields are promoted): es.cursor.offset prints as es.offset
+		if embeddedField(deref(x.X.Type()), x.Field) {
+			return exprStrD(x.X, d+1)
+		}
 		return exprStrD(x.X, d+1) + "." + fieldName(deref(x.X.Type()), x.Field)
 	case *ssa.Field:
+		if embeddedField(x.X.Type(), x.Field) {
+			return exprStrD(x.X, d+1)
+		}
 		return exprStrD(x.X, d+1) + "." + fieldName(x.X.Type(), x.Field)
 	case *ssa.IndexAddr:
 		return exprStrD(x.X, d+1) + "[" + exprStrD(x.Index, d+1) + "]"
@@ -291,4 +298,14 @@ func linearString(v ssa.Value, rename func(string) string) string {
 		parts = append(parts, fmt.Sprintf("%+d", k))
 	}
 	return strings.Join(parts, " ")
+}
+
+// embeddedField: field i of struct type t is an embedded (anonymous) struct.
+func embeddedField(t types.Type, i int) bool {
+	st, ok := t.Underlying().(*types.Struct)
+	if !ok || i >= st.NumFields() || !st.Field(i).Embedded() {
+		return false
+	}
+	_, isStruct := deref(st.Field(i).Type()).Underlying().(*types.Struct)
+	return isStruct
 }
